@@ -36,24 +36,35 @@ def install():
 
     def schedule(self, event, priority=core.NORMAL, delay=0):
         t = _trace(self)
-        t["ev"].append(["S", _eid(t, event), int(priority), self._now, self._now + delay])
+        t["ev"].append(["S", _eid(t, event), int(priority), self.now, self.now + delay])
+        t.setdefault("out", []).append((event, int(priority), self.now + delay))
         return orig_schedule(self, event, priority, delay)
 
     def step(self):
+        # Which occurrence a step processed is read off the public API only: it is the scheduled event whose
+        # `processed` flag has turned true (the recorder never looks into the environment's private queue).
         t = _trace(self)
-        if self._queue:
-            due, prio, _, event = self._queue[0]
-            # run(until=number) pushes its stop event without going through schedule(): such a pop is recorded as "U"
-            kind = "P" if id(event) in t["ids"] else "U"
-            t["ev"].append([kind, _eid(t, event), int(prio), due, due])
-        else:
-            t["ev"].append(["P", 0, 0, self._now, self._now])
+        at = len(t["ev"])
+        err = ""
         try:
             r = orig_step(self)
         except BaseException as e:  # noqa
-            t["ev"].append(["E", 0, 0, self._now, self._now, type(e).__name__])
+            err = type(e).__name__
             raise
-        t["ev"].append(["E", 0, 0, self._now, self._now, ""])
+        finally:
+            out = t.setdefault("out", [])
+            done = [x for x in out if getattr(x[0], "callbacks", 0) is None]
+            if done:
+                ev, prio, due = done[0]
+                out.remove(done[0])
+                rec = ["P", _eid(t, ev), prio, due, due]
+            elif err == "EmptySchedule":
+                rec = ["P", 0, 0, self.now, self.now]
+            else:
+                # an occurrence the kernel put on the agenda itself (the stop event of run(until=number))
+                rec = ["U", 0, 0, self.now, self.now]
+            t["ev"].insert(at, rec)
+            t["ev"].append(["E", 0, 0, self.now, self.now, err or ""])
         return r
 
     core.Environment.schedule = schedule
